@@ -66,6 +66,18 @@ def single : Handler := fun j => do
   | .transpose p => pure (jObj [("path", jStr "transpose"), ("perm", jNats p)])
   | .einsum => pure (jObj [("path", jStr "einsum")])
 
+/-- op `c12.pathok`: is the path the real code took admissible? -/
+def pathok : Handler := fun j => do
+  let t ← natList (← field j "term")
+  let o ← natList (← field j "output")
+  let p ← (← field j "path").getStr?
+  let sp ← match p with
+    | "identity" => pure SinglePath.identity
+    | "einsum" => pure SinglePath.einsum
+    | "transpose" => do pure (SinglePath.transpose (← natList (← field j "perm")))
+    | _ => throw "unknown path"
+  pure (jObj [("ok", jBool (pathOK t o sp))])
+
 /-- op `c12.ncon`: output labels of `ncon` -/
 def ncon : Handler := fun j => do
   let ind ← (← arrOf (← field j "indices")).mapM fun t => do (← arrOf t).mapM intOf
@@ -78,6 +90,6 @@ def symbol : Handler := fun j => do
 
 def handlers : List (String × Handler) :=
   [("c12.parse", parse), ("c12.interleaved", interleaved), ("c12.canon", canon),
-   ("c12.findout", findout), ("c12.single", single), ("c12.ncon", ncon), ("c12.symbol", symbol)]
+   ("c12.findout", findout), ("c12.single", single), ("c12.pathok", pathok), ("c12.ncon", ncon), ("c12.symbol", symbol)]
 
 end Cotengra.Driver.C12
